@@ -44,6 +44,7 @@ type outcome struct {
 	nilInside bool
 	hasErr   bool
 	canon    string
+	obj      at.Object
 }
 
 func (o outcome) class() string {
@@ -75,6 +76,9 @@ func observe(f func() (any, error)) (o outcome) {
 		o.hasVal = x != nil
 	case at.Object:
 		o.hasVal = x != nil
+		if o.hasVal && !reflect.ValueOf(v).IsNil() {
+			o.obj = x
+		}
 	}
 	if o.hasVal {
 		if reflect.ValueOf(v).IsNil() {
@@ -363,6 +367,14 @@ func runDisk(ch *simrt.Chooser, opt Options) RunResult {
 				}
 				if of.class() != o1.class() || of.canon != o1.canon {
 					d.fail("parsefile-differs", fmt.Sprintf("%s: ParseFile gives %s %s, ParseObject on the same %d bytes gives %s %s", what, of.class(), short(of.canon, 120), len(data), o1.class(), short(o1.canon, 120)))
+				} else if of.hasVal && of.obj != nil {
+					// what a caller does with one result must not show in the next one (a reader-side cache handing out its own copy)
+					try(func() { of.obj.Set("changed-by-the-caller", 1); of.obj.Unset("a", "b", "k1", "") })
+					again := parseFil(p)
+					res.Evals++
+					if again.class() != o1.class() || again.canon != o1.canon {
+						d.fail("parsefile-differs", fmt.Sprintf("%s: a second ParseFile of the unchanged file, after the caller modified the first result, gives %s %s instead of %s", what, again.class(), short(again.canon, 120), short(o1.canon, 120)))
+					}
 				}
 			}
 			return o1
